@@ -312,7 +312,8 @@ def strategy(draw):
                                "vals": st.lists(ids, max_size=3),
                                "exc": st.sampled_from(
                                    ["flaky", "flaky", "stop", "key", "value",
-                                    "eof", "unpicklable"])}),
+                                    "eof", "unpicklable", "notfound",
+                                    "timeout"])}),
         st.fixed_dictionaries({"op": st.just("delete"), "i": ids}),
         st.fixed_dictionaries({"op": st.just("swap"), "i": ids, "j": ids}),
         st.fixed_dictionaries({"op": st.just("corrupt"), "i": ids,
